@@ -80,6 +80,24 @@ fn check_raw32(b: &[u8; 32], st: &mut Stats) -> Result<(), String> {
         if disp != wantd {
             return Err(format!("Display {disp} != {wantd}"));
         }
+        // formatter flags must not change the forms (pretty Debug is what dbg! and {:#?} of a
+        // containing struct use)
+        let alt = format!("{a:#?}");
+        if alt != dbg {
+            return Err(format!("pretty Debug {alt} != Debug {dbg}"));
+        }
+        let alt_disp = format!("{a:#}");
+        if alt_disp != wantd {
+            return Err(format!("alternate Display {alt_disp} != {wantd}"));
+        }
+        let inside = format!("{:#?}", (a,));
+        if !inside.contains(&format!(" {dbg},")) && !inside.contains(&format!("{dbg},")) || inside.contains("0x0x") {
+            return Err(format!("Debug inside a pretty-printed container: {inside}"));
+        }
+        let opt = format!("{:?}", Some(a));
+        if opt != format!("Some({dbg})") {
+            return Err(format!("Debug inside Option: {opt}"));
+        }
         Ok(())
     });
     st.evals(1);
